@@ -187,6 +187,26 @@ def make_methods(log: Log, is_async: bool) -> Dict[str, Callable[..., Any]]:
 
     fac['wrapped'] = wrapped
 
+    # two methods validated by one JsonSchemaValidator instance; only one of them passes a format checker
+    import jsonschema as _js
+
+    from pjrpc.server.validators import jsonschema as _vjs
+    shared_validator = _vjs.JsonSchemaValidator()
+
+    @shared_validator.validate(schema={'type': 'object', 'properties': {'ip': {'type': 'string', 'format': 'ipv4'}}, 'required': ['ip']},
+                               format_checker=_js.FormatChecker())
+    def js_checked(ip):
+        log.calls.append(('js_checked', (ip,), {}))
+        return ['js_checked', ip]
+
+    @shared_validator.validate(schema={'type': 'object', 'properties': {'s': {'type': 'string', 'format': 'ipv4'}}, 'required': ['s']})
+    def js_loose(s):
+        log.calls.append(('js_loose', (s,), {}))
+        return ['js_loose', s]
+
+    fac['js_checked'] = js_checked
+    fac['js_loose'] = js_loose
+
     def whoami(ctx):
         log.calls.append(('whoami', (), {}))
         log.contexts.append(ctx)
@@ -247,7 +267,7 @@ def make_view(log: Log, is_async: bool):
     return ProbeView
 
 
-METHOD_NAMES = ('slowfail', 'byid', 'wrapped', 'whoami', 'ctxp', 'slow', 'fac1', 'fac2', 'ok', 'noargs', 'echo', 'kwonly', 'rpcerr', 'typed', 'boom', 'ctxm', 'view.vm')
+METHOD_NAMES = ('js_checked', 'js_loose', 'slowfail', 'byid', 'wrapped', 'whoami', 'ctxp', 'slow', 'fac1', 'fac2', 'ok', 'noargs', 'echo', 'kwonly', 'rpcerr', 'typed', 'boom', 'ctxm', 'view.vm')
 
 
 def build_registry(log: Log, coroutines: bool) -> 'pjrpc.server.MethodRegistry':
